@@ -59,9 +59,20 @@ def api_history(ctx, prop="C05"):
     def inp(k):
         return {"a": array([k[0], 1.0]), "b": array([k[1]] * k[2])}
 
+    def strided(d):
+        # the same values as non-contiguous views of larger buffers: the same input for a cache
+        out = {}
+        for n, v in d.items():
+            buf = array([9.0] * (2 * len(v)))
+            buf[::2] = v
+            out[n] = buf[::2]
+        return out
+
+    use_views = t.flag(0.3, "lookups_with_strided_views")
+
     def check_all(after):
         for k in keys:
-            e = cache[inp(k)]
+            e = cache[strided(inp(k)) if use_views else inp(k)]
             m = model.get(k, {"out": None, "jac": None})
             got_out = None if not e.outputs else float(array(e.outputs["y"])[0])
             try:
